@@ -159,6 +159,33 @@ def run_index_entries(rep, rng, n):
                                            f"{req} it is {kreq}")
             elif k1 == "ok" and len(out1) != m:
                 rep.property_failure(case, f"{entry}.validate with {kw} returned {len(out1)} of {m} rows")
+        # value constraints through a SeriesSchema and a stand-alone Column, distinct labels (repeated labels are the
+        # recorded region of the de-duplicating subsample)
+        ulabels = rng.sample(range(10, 40), m)
+        vals = [rng.choice([1, 1, 2, 5]) for _ in range(m)]
+        vk = rng.choice(["lt3", "unique"])
+        mkw = dict(unique=vk == "unique", checks=[pa.Check.lt(3)] if vk == "lt3" else None)
+        udf = pd.DataFrame({"v": vals}, index=pd.Index(ulabels))
+        for entry in ("SeriesSchema-values", "Column"):
+            case = {"entry": entry, "labels": ulabels, "values": vals, "opts": kw, "constraint": vk, "requested": req}
+            if entry == "Column":
+                run_ = lambda obj, **o: P.run_validate(pa.Column(int, name="v", **mkw), obj, lazy=True, **o)
+                obj = udf
+            else:
+                run_ = lambda obj, **o: P.run_validate(pa.SeriesSchema(int, **mkw), obj, lazy=True, **o)
+                obj = udf["v"]
+            k1, out1 = run_(obj.copy(), **kw)
+            kreq, _ = run_(obj.iloc[req].copy())
+            rep.case(case, nontrivial=len(req) < m)
+            rep.evaluations += 1
+            rep.count(f"index-entry:{entry}:{k1}")
+            if "crash" in (k1, kreq):
+                continue
+            if k1 != kreq:
+                rep.property_failure(case, f"{entry}.validate with {kw} on values {vals} is {k1}, on the requested rows "
+                                           f"{req} it is {kreq}")
+            elif k1 == "ok" and len(out1) != m:
+                rep.property_failure(case, f"{entry}.validate with {kw} returned {len(out1)} of {m} rows")
 
 
 def run_polars(rep, cases):
@@ -233,7 +260,7 @@ def run(tier, replay=None):
     rep = Report(PROP, tier)
     rep.audit = audit(PROP, MODULES)
     rep.audit["modules"] = MODULES
-    if replay and json.loads(open(replay).read())["case"].get("entry") in ("Index", "SeriesSchema"):
+    if replay and json.loads(open(replay).read())["case"].get("entry") in ("Index", "SeriesSchema", "SeriesSchema-values", "Column"):
         run_index_entries(rep, rng_for(PROP, "index-entries"), 150)
         return rep.finish(rule="replay of the index-entry sweep (deterministic under VERIF_SEED)")
     if replay:
